@@ -75,6 +75,7 @@ func C02(p *load.Prog, r *oblig.Run) {
 	r.Rule("R01.c", "tag -> specialised kind registry agrees with the tag each kind's constructor hard-wires; value and pointer are passed through", 27)
 	c01Reader(p, r)
 	c01Registry(p, r)
+	c01RegistryInvariant(p, r)
 }
 
 // c02Rules: the decoder-loop rules; C01 (encode/decode round trip) runs them
